@@ -10,7 +10,7 @@ META = {
     "extract": "C05.v",
     "model_dir": "c05",
     "technique": "Coq proof that the denotation of a record literal is invariant under permutation of its fields and that of a merge under swapping operands (so export and field listings, functions of the denotation, cannot depend on written order); tie: the interpreter's JSON/YAML/TOML bytes and std.record.{fields,values,to_array} for original vs permuted programs, across two processes",
-    "level_text": "coq/Props/C15.v: for every record literal with distinct field names and every permutation of its fields the elaboration is the same tree (C15_literal_order_irrelevant), and merge is commutative on all well-formed trees (C15_operand_order_irrelevant); in the algebra records are key-sorted so there is no insertion order to leak. Tie to the code: each generated program is evaluated by the interpreter as written, with every literal's fields permuted, and with the operands of every merge swapped; the serializer's JSON, YAML and TOML text and the results of std.record.fields / values / to_array are compared byte for byte (direct oracle), the batch is run in two separate processes (different hash seeds), and the exported tree is compared with the extracted algebra. PARTIAL: cross-process determinism is observed, not proved (a pure model is deterministic by construction); records with recursive fields are outside the algebra: for them (checks/richmerge.py: sibling references under binders reusing the field names, nested and piecewise definitions, declared-only fields, overriding) the interpreter's JSON / YAML / TOML bytes and field listings are compared between the program as written, with the fields of every literal (pieces of piecewise definitions included) permuted, and with merge operands swapped (direct oracle only). " + mergemech.MECH_TEXT_C15,
+    "level_text": "coq/Props/C15.v: for every record literal with distinct field names and every permutation of its fields the elaboration is the same tree (C15_literal_order_irrelevant), and merge is commutative on all well-formed trees (C15_operand_order_irrelevant); in the algebra records are key-sorted so there is no insertion order to leak. Tie to the code: each generated program is evaluated by the interpreter as written, with every literal's fields permuted, and with the operands of every merge swapped; the serializer's JSON, YAML and TOML text and the results of std.record.fields / values / to_array are compared byte for byte (direct oracle), the batch is run in two separate processes (different hash seeds), and the exported tree is compared with the extracted algebra. PARTIAL: cross-process determinism is observed, not proved (a pure model is deterministic by construction); records with recursive fields are outside the algebra: for them (checks/richmerge.py: sibling references under binders reusing the field names, nested and piecewise definitions, declared-only fields, overriding, local contract aliases, arrays of records with field metadata) the interpreter's JSON / YAML / TOML bytes and field listings are compared between the program as written, with the fields of every literal (pieces of piecewise definitions included) permuted, and with merge operands swapped (direct oracle only). " + mergemech.MECH_TEXT_C15,
     "level_note": "Trusted: Coq kernel; extraction; nkeval; generator. IndexMap insertion order / swap_remove / split_ref inside merge.rs are modelled in coq/MergeMech/Model.v (a reading of the code, tied by comparing the model's map order with the interpreter's); the hash function of IndexMap and serde's emitters are not modelled (covered by the byte-level comparison on the implementation).",
 }
 
